@@ -276,8 +276,11 @@ class C07(Prop):
         out.nontrivial = ncommit >= 2 and any(s[0] == 'flush' for s in prog)
         out.key = json.dumps([spec.get('shape'), spec['options'], spec.get('plugins'), prog], sort_keys=True)
         for i, (a, b) in enumerate(zip(v['outcomes'], u['outcomes'])):
-            ka = a['exc'] if isinstance(a, dict) else a
-            kb = b['exc'] if isinstance(b, dict) else b
+            # 'skip' is the runner's own decision from in-memory ORM state (e.g. whether an unflushed backref
+            # collection already reflects a scalar assignment, which active_history influences); the outcome
+            # of an operation is "raised <class>" or "did not raise"
+            ka = a['exc'] if isinstance(a, dict) else 'ok'
+            kb = b['exc'] if isinstance(b, dict) else 'ok'
             if isinstance(b, dict):
                 out.tags.append('db_rejected')
             if isinstance(a, dict) and a.get('in_continuum') and not isinstance(b, dict):
